@@ -31,6 +31,10 @@ func VerifC16_EcBalance() {
 	withDup := rt.Choice("duplicate", 2) == 1
 	for i := 0; i < nn; i++ {
 		n := rt.Choice("count", erasure_coding.TotalShardsCount+1)
+		if rt.Param("coarse", 0) == 1 {
+			// larger clusters: only empty, half and full shares per server
+			rt.Assume(n == 0 || n == 7 || n == erasure_coding.TotalShardsCount)
+		}
 		if i == nn-1 {
 			rt.Assume(n == erasure_coding.TotalShardsCount-next)
 		}
